@@ -132,7 +132,7 @@ def obligations(tier):
 def planted_files(d, pth, nu, A, Bc, C, dists, rates, n_trials, rnd, nfiles=1):
     recs = []
     for L in dists:
-        for p in rates:
+        for p in (rates[L] if isinstance(rates, dict) else rates):
             x = (p - pth) * L ** nu
             f = min(max(A + Bc * x + C * x * x, 0.0), 1.0)
             nf = int(round(f * n_trials))
@@ -150,7 +150,7 @@ def planted_files(d, pth, nu, A, Bc, C, dists, rates, n_trials, rnd, nfiles=1):
     return paths
 
 
-def native_planted(pth, nu, A, Bc, C, rnd, nfiles=1, tol=None):
+def native_planted(pth, nu, A, Bc, C, rnd, nfiles=1, tol=None, grids=None):
     from panqec.analysis import Analysis
     d = tempfile.mkdtemp(prefix='c16_')
     try:
@@ -158,7 +158,12 @@ def native_planted(pth, nu, A, Bc, C, rnd, nfiles=1, tol=None):
         half = 0.12 * pth
         rates = [round(pth - half + 2 * half * j / 12, 6) for j in range(13)]
         n_trials = 20000
-        paths = planted_files(d, pth, nu, A, Bc, C, dists, rates, n_trials, rnd, nfiles)
+        if grids:                   # ragged grid: distance -> its own list of error rates
+            dists = sorted(grids)
+            paths = planted_files(d, pth, nu, A, Bc, C, dists, grids, n_trials, rnd, nfiles)
+            rates = sorted({r_ for v in grids.values() for r_ in v})
+        else:
+            paths = planted_files(d, pth, nu, A, Bc, C, dists, rates, n_trials, rnd, nfiles)
         import warnings
         with contextlib.redirect_stdout(io.StringIO()), warnings.catch_warnings():
             warnings.simplefilter('ignore')
@@ -171,7 +176,7 @@ def native_planted(pth, nu, A, Bc, C, rnd, nfiles=1, tol=None):
         tol = tol or 0.01 * pth            # fixed fit tolerance (not scaled by the reported CI)
         if not (abs(est - pth) <= tol):
             return 'planted threshold %r, reported %r (CI [%r, %r])' % (pth, est, lo, hi), None
-        if (hi - lo) > 0.05 * pth:
+        if not grids and (hi - lo) > 0.05 * pth:        # (rectangular grids only: on a ragged grid the threshold is partly extrapolated and a wide interval is legitimate)
             return 'confidence interval [%r, %r] is wider than 5%% of the planted threshold with 20000 trials per point' % (lo, hi), None
         if not (lo <= est <= hi):
             return 'reported threshold %r outside its own confidence interval [%r, %r]' % (est, lo, hi), None
@@ -230,6 +235,17 @@ def replay(r):
 
 
 def replay_file(data):
+    inp = (data or {}).get('input') or {}
+    if inp.get('grids'):
+        grids = {int(k): v for k, v in inp['grids'].items()}
+        why, _ = native_planted(inp['p_th'], inp['nu'], inp['A'], inp['B'], inp['C'], random.Random(0), inp.get('files', 1), tol=0.02 * inp['p_th'], grids=grids)
+        return dict(confirmed=bool(why), input=inp, detail=why or 'planted threshold recovered on the ragged grid')
+    if inp.get('row_order'):
+        why = native_direct(inp['p_th'], inp['nu'], inp['A'], inp['B'], inp['C'], inp['row_order'], random.Random(0))
+        return dict(confirmed=bool(why), input=inp, detail=why or 'holds')
+    if 'p_th' in inp and 'nu' in inp:
+        why, _ = native_planted(inp['p_th'], inp['nu'], inp['A'], inp['B'], inp['C'], random.Random(0), inp.get('files', 1))
+        return dict(confirmed=bool(why), input=inp, detail=why or 'planted threshold recovered')
     return replay({})
 
 
@@ -252,6 +268,19 @@ def bounded(tier, seed):
         if all(ests) and not np.allclose(ests[0], ests[1], rtol=1e-6, atol=1e-9):
             viol.append(dict(obligation='C16.bounded.order', input=dict(p_th=g[0]), detail='threshold depends on file/row order: %r vs %r' % (ests[0], ests[1])))
         samples.append(dict(planted=g, reported=ests[0]))
+    # ragged grids: only the smallest code was run at the highest rates and the planted threshold lies beyond the last rate common to all distances
+    common = [round(0.080 + 0.005 * j, 6) for j in range(7)]
+    for pth_r, extra in ((0.112, [0.115, 0.120]), (0.1135, [0.115, 0.120, 0.125])):
+        g = (pth_r, 0.9, 0.25, 0.6, 0.5)
+        grids = {5: common + extra, 7: common, 9: common}
+        for nfiles, sd in ((1, seed), (3, seed + 1)):
+            try:
+                why, e_ = native_planted(*g, random.Random(sd), nfiles, tol=0.02 * pth_r, grids=grids)
+            except Exception as ex:      # noqa
+                why, e_ = 'analysis raises %s: %s' % (type(ex).__name__, str(ex)[:200]), None
+            ev += 1; nt.add((g, nfiles, 'ragged'))
+            if why:
+                viol.append(dict(obligation='C16.bounded.ragged', input=dict(p_th=g[0], nu=g[1], A=g[2], B=g[3], C=g[4], files=nfiles, grids={str(k): v for k, v in grids.items()}), detail=why))
     for g in grid[:2]:
         for order in ('by_distance', 'by_rate', 'shuffled', 'by_distance_desc'):
             try:
@@ -265,5 +294,5 @@ def bounded(tier, seed):
     for v in viol:
         if v['obligation'] not in seen:
             seen.add(v['obligation']); out.append(v)
-    return dict(bound='%d planted parameter sets x {1 file, 3 files with permuted rows}; 4 distances x 13 rates, 20000 trials per point' % len(grid),
+    return dict(bound='%d planted parameter sets x {1 file, 3 files with permuted rows}; 4 distances x 13 rates, 20000 trials per point; 2 ragged grids with the threshold beyond the last common rate' % len(grid),
                 evaluations=ev, distinct_nontrivial=len(nt), rule='real Analysis(...).thresholds on synthetic results lying exactly on the ansatz (rounded to counts)', samples=samples, violations=out)
